@@ -138,10 +138,21 @@ fn val_json(v: &ValueType) -> J {
             let mut items: Vec<(String, i32)> =
                 l.items.iter().map(|(k, v)| (k.get_full_name(), *v)).collect();
             items.sort();
-            let mut origins = l.get_origin_names();
+            // (InkList::get_origin_names unwraps the origin of every item; an item without one is reported here
+            // instead of taking the harness down with it)
+            let orphan = l.items.keys().any(|k| k.get_origin_name().is_none());
+            let mut origins: Vec<String> = if orphan {
+                l.items.keys().filter_map(|k| k.get_origin_name().cloned()).collect()
+            } else {
+                l.get_origin_names()
+            };
             origins.sort();
             origins.dedup();
-            json!({"t":"list","items":items,"origins":origins})
+            if orphan {
+                json!({"t":"list","items":items,"origins":origins,"item_without_origin":true})
+            } else {
+                json!({"t":"list","items":items,"origins":origins})
+            }
         }
         ValueType::DivertTarget(p) => json!({"t":"target","v":p.to_string()}),
         ValueType::VariablePointer(_) => json!({"t":"varptr"}),
